@@ -77,6 +77,8 @@ struct Sched {
 inline Sched &S() { static Sched s; return s; }
 inline __thread Thread *self = nullptr;
 
+inline bool dbg() { static int d = getenv("VS_DEBUG") ? 1 : 0; return d; }
+#define VSD(...) do { if (vs::dbg()) { fprintf(stderr, "[vs T%d] ", vs::self ? vs::self->id : -1); fprintf(stderr, __VA_ARGS__); fprintf(stderr, "\n"); } } while (0)
 inline void verdict(const char *klass, const std::string &msg) {
   Sched &s = S();
   if (s.on_verdict) s.on_verdict(klass, msg);
@@ -119,6 +121,13 @@ inline std::string describe_all() {
   return d;
 }
 
+// a condition waiter that is scheduled without having been signalled receives a spurious wake-up: it leaves the wait set
+inline void deliver_spurious(Thread *t) {
+  Sched &s = S();
+  Cond &cd = s.conds[t->wait_obj];
+  for (size_t i = 0; i < cd.waiters.size(); i++) if (cd.waiters[i] == t->id) { cd.waiters.erase(cd.waiters.begin() + (long)i); break; }
+  t->woken = true; t->spurious_woken = true; s.spurious_budget--; s.spurious_delivered++;
+}
 inline uint8_t next_choice() {
   Sched &s = S();
   if (s.sched_pos < s.schedule.size()) return s.schedule[s.sched_pos++];
@@ -175,12 +184,7 @@ inline void point(bool must_block, bool is_trace = false) {
     me->trace_run = 0;
   } else { ni = c % en.size(); next = en[ni]; }
   if (next == me) { for (size_t i = 0; i < en.size(); i++) if (en[i] == me) ni = i; }
-  if (spur[ni] && !next->woken) {
-    // the choice delivers a spurious wake-up to a condition waiter
-    Cond &cd = s.conds[next->wait_obj];
-    for (size_t i = 0; i < cd.waiters.size(); i++) if (cd.waiters[i] == next->id) { cd.waiters.erase(cd.waiters.begin() + (long)i); break; }
-    next->woken = true; next->spurious_woken = true; s.spurious_budget--; s.spurious_delivered++;
-  }
+  if (spur[ni] && !next->woken) deliver_spurious(next); // the choice delivers a spurious wake-up to a condition waiter
   if (next != me) {
     if (me_enabled && !must_block) s.preemptions++;
     if (must_block) s.blocks++;
@@ -215,6 +219,7 @@ inline void fin_destructor(void *v) {
     verdict("deadlock", "no thread can make progress after a thread finished: " + describe_all());
   }
   Thread *next = en[next_choice() % en.size()];
+  if (next->wait == W_COND && !next->woken) deliver_spurious(next);
   s.current = next->id;
   sem_post(&next->baton);
 }
@@ -291,6 +296,7 @@ int vs_pthread_mutex_lock(pthread_mutex_t *m) {
   while (s.mutexes[m].owner != -1) { vs::self->wait = vs::W_MUTEX; vs::self->wait_obj = m; vs::block_until_enabled(); }
   vs::self->wait = vs::W_NONE;
   s.mutexes[m].owner = vs::self->id; s.mutexes[m].locks++;
+  VSD("mutex_lock %p", (void *)m);
   return 0;
 }
 int vs_pthread_mutex_trylock(pthread_mutex_t *m) {
@@ -308,6 +314,7 @@ int vs_pthread_mutex_unlock(pthread_mutex_t *m) {
   if (!s.active || !vs::self) { mx.owner = -1; return 0; }
   if (mx.owner != vs::self->id) vs::verdict("model-misuse", "pthread_mutex_unlock of a mutex the caller does not hold: " + vs::describe_all());
   mx.owner = -1;
+  VSD("mutex_unlock %p", (void *)m);
   vs::point(false);
   return 0;
 }
@@ -329,10 +336,12 @@ int vs_pthread_cond_wait(pthread_cond_t *c, pthread_mutex_t *m) {
   mit->second.owner = -1;
   vs::Cond &cd = s.conds[c];
   cd.waiters.push_back(vs::self->id);
+  VSD("cond_wait %p releases mutex %p", (void *)c, (void *)m);
   s.cond_waits++;
   if ((long)cd.waiters.size() > s.max_cond_waiters) s.max_cond_waiters = (long)cd.waiters.size();
   vs::self->wait = vs::W_COND; vs::self->wait_obj = c; vs::self->woken = false; vs::self->spurious_woken = false;
   vs::block_until_enabled();
+  VSD("cond_wait %p woken (%s)", (void *)c, vs::self->spurious_woken ? "spurious" : "signalled");
   // woken (signal, broadcast or spurious): now re-acquire the mutex
   vs::self->woken = false;
   vs::self->wait = vs::W_NONE;
@@ -345,6 +354,7 @@ int vs_pthread_cond_signal(pthread_cond_t *c) {
   vs::Sched &s = vs::S();
   if (!s.active || !vs::self) return 0;
   vs::Cond &cd = s.conds[c];
+  VSD("cond_signal %p waiters=%zu", (void *)c, cd.waiters.size());
   if (!cd.waiters.empty()) {
     s.signals_with_waiters++;
     size_t i = vs::next_choice() % cd.waiters.size();   // which waiter is woken is a schedule choice
@@ -359,6 +369,7 @@ int vs_pthread_cond_broadcast(pthread_cond_t *c) {
   vs::Sched &s = vs::S();
   if (!s.active || !vs::self) return 0;
   vs::Cond &cd = s.conds[c];
+  VSD("cond_broadcast %p waiters=%zu", (void *)c, cd.waiters.size());
   if (!cd.waiters.empty()) s.signals_with_waiters++;
   for (int id : cd.waiters) s.threads[(size_t)id]->woken = true;
   cd.waiters.clear();
